@@ -206,3 +206,93 @@ impl RoundTrip for char {
     }
 }
 //@endrequires
+
+// =========================================================================
+// arrays (impls/array.rs), serialization half: no length prefix; zero-copy elements
+// are written as one padded memory image, deep elements one after the other
+// =========================================================================
+
+//@item epserde/src/impls/array.rs name=array::CopyType optional <<impl<T: CopyType, const N: usize> CopyType for [T; N] {>>
+//@end
+
+/// the unit of an array is the unit of its element (V-TYPEINFO verifies the real impl)
+impl<T: MaxSizeOf, const N: usize> MaxSizeOf for [T; N] {
+    open spec fn unit() -> nat { T::unit() }
+    #[verifier::external_body]
+    fn max_size_of() -> (r: usize) { unimplemented!() }
+}
+
+//@item epserde/src/impls/array.rs props=C01,C07,C13 name=array::SerializeInner optional <<impl<T: CopyType + SerializeInner + TypeHash + AlignHash, const N: usize> SerializeInner for [T; N]>>
+//@  replace <<ser::Result>> <<SResult>>
+//@  body_prefix
+//@|    open spec fn enc(&self, pos: nat) -> Seq<u8> { <[T; N] as SerializeHelper<<T as CopyType>::Copy>>::enc_impl(self, pos) }
+//@  sub <<fn _serialize_inner(&self, backend: &mut impl WriteWithNames) -> ser::Result<()> {>>
+//@  impl_arg
+//@  ret r
+//@end
+
+//@item epserde/src/impls/array.rs props=C01,C07,C13 name=array::SerializeHelper<Zero> optional <<impl<T: ZeroCopy + SerializeInner + TypeHash + AlignHash, const N: usize> SerializeHelper<Zero>>>
+//@  replace <<ser::Result>> <<SResult>>
+//@  body_prefix
+//@|    open spec fn enc_impl(&self, pos: nat) -> Seq<u8> { enc_zero::<[T; N]>(*self, pos) }
+//@  sub <<fn _serialize_inner(&self, backend: &mut impl WriteWithNames) -> ser::Result<()> {>>
+//@  impl_arg
+//@  ret r
+//@end
+
+//@item epserde/src/impls/array.rs props=C01,C13 name=array::SerializeHelper<Deep> optional <<impl<T: DeepCopy + SerializeInner, const N: usize> SerializeHelper<Deep> for [T; N] {>>
+//@  replace <<ser::Result>> <<SResult>>
+//@  replace <<backend.write(>> <<ww_write(backend, >>
+//@  body_prefix
+//@|    open spec fn enc_impl(&self, pos: nat) -> Seq<u8> { enc_items::<T>(self@, pos, N as nat) }
+//@  sub <<fn _serialize_inner(&self, backend: &mut impl WriteWithNames) -> ser::Result<()> {>>
+//@  impl_arg
+//@  ret r
+//@  body_prefix
+//@|        let ghost sink0 = backend.sink();
+//@|        let ghost pos0 = backend.wpos();
+//@|        let ghost total = enc_items::<T>(self@, pos0, N as nat);
+//@  loop_iter 1 it
+//@  loop 1
+//@|            invariant
+//@|                backend.wf(),
+//@|                backend.fin_sink() == old(backend).fin_sink(), backend.fin_wf() == old(backend).fin_wf(),
+//@|                it.index@ <= N, self@.len() == N,
+//@|                sink0 == old(backend).sink(), pos0 == old(backend).wpos(), pos0 <= sink0.len(),
+//@|                total == enc_items::<T>(self@, pos0, N as nat),
+//@|                sink0.len() + total.len() <= usize::MAX,
+//@|                backend.sink() =~= sink0 + enc_items::<T>(self@, pos0, it.index@ as nat),
+//@|                backend.wpos() == pos0 + enc_items::<T>(self@, pos0, it.index@ as nat).len(),
+//@  loop_body_prefix 1
+//@|            proof {
+//@|                let i = it.index@ as nat;
+//@|                let done = enc_items::<T>(self@, pos0, i);
+//@|                let e = self@[i as int].enc(pos0 + done.len());
+//@|                assert(enc_items::<T>(self@, pos0, i + 1) =~= done + e);
+//@|                lemma_enc_items_prefix(self@, pos0, i + 1, N as nat);
+//@|                assert((done + e).len() <= total.len());
+//@|                assert forall|s2: Seq<u8>| is_prefix(sink0 + done, s2) && #[trigger] is_prefix(s2, sink0 + done + e)
+//@|                    implies is_prefix(sink0, s2) && is_prefix(s2, sink0 + total) by {
+//@|                    lemma_err_second(sink0, done, e, s2);
+//@|                    assert(is_prefix(sink0 + (done + e), sink0 + total)) by {
+//@|                        let a = sink0 + (done + e);
+//@|                        let b = sink0 + total;
+//@|                        assert(a =~= b.take(a.len() as int)) by {
+//@|                            assert forall|j: int| 0 <= j < a.len() implies a[j] == b[j] by {
+//@|                                if j >= sink0.len() {
+//@|                                    assert((done + e)[j - sink0.len()] == total.take((done + e).len() as int)[j - sink0.len()]);
+//@|                                }
+//@|                            }
+//@|                        }
+//@|                    }
+//@|                    lemma_prefix_trans(s2, sink0 + (done + e), sink0 + total);
+//@|                }
+//@|            }
+//@  loop_body_suffix 1
+//@|            proof {
+//@|                let i = it.index@ as nat;
+//@|                let done = enc_items::<T>(self@, pos0, i);
+//@|                let e = self@[i as int].enc(pos0 + done.len());
+//@|                assert(sink0 + done + e =~= sink0 + enc_items::<T>(self@, pos0, i + 1));
+//@|            }
+//@end
